@@ -6,8 +6,17 @@
 //   gdec  id kind u_0 … u_{wp-1} => out                      getNoise(out,1) on the scripted string u
 //   gstep id j => u_0 … u_{wp-1}                             smallest string with output > v0+j, found by bisection on the implementation
 //   gn    id rlen bufLen kind <nreq*bufLen words> => nreq lenOK wrOK out_0 … out_{rlen-1}
-//   gtv   W lam log2m sigma_milli c_milli ctor => ratio_ppm wp nb hypOK   TV(sampler, D_{Z,sigma,c}) / (2^-lam/m), in 1e-6 units (rounded up)
-//   glife W depth lam log2m sigma_milli c_milli ctor => nb wp hypOK   constructor / getNoise / destructor under the sanitizers
+//   gtv   W lam m sn sd cn cd ctor => ratio_ppm wp nb hypOK bitprec   TV(sampler, D_{Z,sigma,c}) / (2^-lam/m), in 1e-6 units (rounded up)
+//   gpar  W lam m sn sd wp nb bitprec => 1                   the derived parameters of a live object (driver: exact-integer consequences of
+//                                                            k = lam+1+ceil(log2 m), Lemma 1 / Lemma 2 of the construction)
+//   glife W depth lam m sn sd cn cd ctor => nb wp hypOK bitprec   constructor / getNoise / destructor under the sanitizers (one thread)
+//   glc   nobj nev (W depth lam m sn sd cn cd ctor)*nobj (op obj thr arg)*nev => resid_blocks resid_bytes hypOK
+//         a lifecycle of several samplers over several threads; op 0 construct / 1 getNoise(arg outputs) / 2 destroy / 3 end of thread thr;
+//         thr 0 = main, 1..3 = named worker threads (started at first use, ended by op 3 or at the end), 9 = a fresh std::thread that ends
+//         right after the event.  resid = heap blocks / bytes allocated inside constructor / getNoise / destructor (on any thread) that are
+//         still allocated when every sampler is destroyed and every worker has ended (allocator accounting through the ASan hooks).
+// Parameters are exact rationals: sigma = fl(sn/sd), centre = fl(cn/cd) (ctor 0: double constructor, 1: mpfr constructor holding that
+// double, 2: mpfr constructor holding cn/cd rounded to 256 bits, i.e. a centre that is not a double); m is the sample budget itself.
 // Before every construction / call the parameters are written to stderr ("PARAMS …"): after a sanitizer abort the
 // last such line is the concrete failing input.
 #include "common.hpp"
@@ -17,15 +26,76 @@
 #include <map>
 #include <algorithm>
 #include <cmath>
+#include <atomic>
+#include <thread>
+#include <mutex>
+#include <condition_variable>
+#include <memory>
 #include "FastGaussianNoise.hpp"
 
 using namespace vh;
+
+// ------------------------------------------------------------------------------------------------ allocator accounting
+// Every heap block allocated while the calling thread is inside a sampler operation (constructor / getNoise / destructor: `Op` scope)
+// is entered in a table, on whatever thread that happens; it leaves the table when it is freed, on whatever thread.  What is left when a
+// lifecycle is over (all samplers destroyed, all workers joined) was obtained by the sampler and never released: blocks + bytes are
+// reported on the lifecycle's own line, so a leak is attributed to the lifecycle that caused it (LSan at exit stays on as a backstop).
+extern "C" {
+int __sanitizer_install_malloc_and_free_hooks(void (*)(const volatile void*, size_t), void (*)(const volatile void*)) __attribute__((weak));
+}
+namespace acct {
+struct E { uintptr_t p; size_t n; };                 // p == 0 empty, p == 1 deleted
+static const size_t CAP = 1u << 19;
+static E tab[CAP];
+static std::atomic_flag lk = ATOMIC_FLAG_INIT;
+static std::atomic<bool> on{false};
+static thread_local volatile int in_op = 0;   // volatile: see `blocks`
+static volatile long blocks = 0, bytes = 0, dropped = 0;   // volatile: malloc/free are `leaf` builtins for the compiler, the hooks run inside them
+static bool installed = false;
+static inline size_t slot(uintptr_t p) { return (size_t)((p >> 3) * 0x9E3779B97F4A7C15ULL >> 45) & (CAP - 1); }
+static void on_malloc(const volatile void* ptr, size_t n) {
+  if (!on.load(std::memory_order_relaxed) || !in_op || !ptr) return;
+  while (lk.test_and_set(std::memory_order_acquire)) {}
+  size_t i = slot((uintptr_t)ptr), k = 0;
+  for (; k < CAP; k++, i = (i + 1) & (CAP - 1)) if (tab[i].p <= 1) break;
+  if (k < CAP) { tab[i].p = (uintptr_t)ptr; tab[i].n = n; blocks = blocks + 1; bytes = bytes + (long)n; } else dropped = dropped + 1;
+  lk.clear(std::memory_order_release);
+}
+static void on_free(const volatile void* ptr) {
+  if (!on.load(std::memory_order_relaxed) || !ptr) return;
+  while (lk.test_and_set(std::memory_order_acquire)) {}
+  size_t i = slot((uintptr_t)ptr);
+  for (size_t k = 0; k < CAP && tab[i].p != 0; k++, i = (i + 1) & (CAP - 1))
+    if (tab[i].p == (uintptr_t)ptr) { tab[i].p = 1; blocks = blocks - 1; bytes = bytes - (long)tab[i].n; break; }
+  lk.clear(std::memory_order_release);
+}
+static void begin() {
+  if (!installed) {
+    installed = true;
+    if (!__sanitizer_install_malloc_and_free_hooks || !__sanitizer_install_malloc_and_free_hooks(on_malloc, on_free)) {
+      fprintf(stderr, "harness error: allocator hooks unavailable (the lifecycle accounting needs the ASan runtime)\n"); exit(4);
+    }
+    // self-test: a block allocated inside an Op scope and not freed must be seen, and must disappear when freed (on another thread)
+    on.store(true);
+    void* volatile probe; in_op = 1; probe = malloc(24); in_op = 0;
+    long b1 = blocks; std::thread([&] { free(probe); }).join();
+    if (b1 != 1 || blocks != 0) { fprintf(stderr, "harness error: allocator accounting self-test failed (%ld, %ld)\n", b1, blocks); exit(4); }
+    on.store(false);
+  }
+  memset(tab, 0, sizeof tab); blocks = bytes = dropped = 0;
+  on.store(true);
+}
+static void end(long& b, long& n) { on.store(false); b = blocks + dropped; n = bytes; }
+struct Op { Op() { in_op = in_op + 1; } ~Op() { in_op = in_op - 1; } };          // the calling thread is inside a sampler operation
+struct Pause { int s; Pause() : s(in_op) { in_op = 0; } ~Pause() { in_op = s; } };   // … except inside the harness's own callbacks
+}  // namespace acct
 
 // ------------------------------------------------------------------------------------------------ scripted randomness
 static std::function<void(size_t req, uint8_t* dst, size_t nbytes)> g_fill;
 static std::vector<std::vector<uint8_t>> g_reqs;
 namespace nfl {
 void fastrandombytes(unsigned char* r, unsigned long long n) {
+  acct::Pause pause;                 // the harness's own buffers are not the sampler's memory
   std::vector<uint8_t> v(n, 0);
   if (g_fill) g_fill(g_reqs.size(), v.data(), n);
   if (n) memcpy(r, v.data(), n);
@@ -33,14 +103,32 @@ void fastrandombytes(unsigned char* r, unsigned long long n) {
 }
 }  // namespace nfl
 
-static char g_params[512];
+static char g_params[8192];
 #define PARAMS(...) do { snprintf(g_params, sizeof g_params, __VA_ARGS__); fprintf(stderr, "PARAMS %s\n", g_params); fflush(stderr); } while (0)
 
 static int g_next_id = 1;
 static const int32_t SENTINEL = INT32_MIN + 7;
 
-struct P { double sigma; unsigned lam; unsigned log2m; double c; int ctor; };  // ctor 0: double centre, 1: mpfr centre
-static long milli(double x) { return lround(x * 1000.0); }
+// sigma = fl(sn/sd), centre = fl(cn/cd); ctor 0: double centre, 1: mpfr centre = that double, 2: mpfr centre = cn/cd at 256 bits
+struct P {
+  long sn, sd; unsigned lam; unsigned m; long cn, cd; int ctor;
+  double sigma() const { return (double)sn / (double)sd; }
+  double c() const { return (double)cn / (double)cd; }
+};
+#define PFMT "sigma=%ld/%ld lambda=%u m=%u centre=%ld/%ld ctor=%d"
+#define PARG(p) (p).sn, (p).sd, (p).lam, (p).m, (p).cn, (p).cd, (p).ctor
+static void centre_mpfr(mpfr_t c, const P& p);
+// constructor 2 is only meant for centres that are NOT doubles; if cn/cd happens to be one it is the same input as constructor 1
+static void fix_ctor(P& p) {
+  if (p.ctor != 2) return;
+  mpfr_t c; mpfr_init2(c, 256); centre_mpfr(c, p);
+  if (mpfr_cmp_d(c, p.c()) == 0) p.ctor = 1;
+  mpfr_clear(c);
+}
+static void centre_mpfr(mpfr_t c, const P& p) {      // c already initialised; exact copy of what the constructor receives
+  if (p.ctor == 2) { mpfr_set_prec(c, 256); mpfr_set_si(c, p.cn, MPFR_RNDN); mpfr_div_si(c, c, p.cd, MPFR_RNDN); }
+  else { mpfr_set_prec(c, 256); mpfr_set_d(c, p.c(), MPFR_RNDN); }
+}
 
 template <class T, unsigned D> struct Obj {
   typedef nfl::FastGaussianNoise<T, int32_t, D> FG;
@@ -50,21 +138,24 @@ template <class T, unsigned D> struct Obj {
   unsigned wp, nb, W;
   std::map<const T*, int> bidx;
 
-  explicit Obj(const P& p_) : p(p_) {
+  explicit Obj(const P& p_, bool index_barriers = true) : p(p_) {
     W = 1u << (8 * sizeof(T));
-    PARAMS("construct W=%u depth=%u sigma=%.17g lambda=%u m=2^%u centre=%.17g ctor=%d", W, D, p.sigma, p.lam, p.log2m, p.c, p.ctor);
-    if (p.ctor == 0) g = new FG(p.sigma, p.lam, 1u << p.log2m, p.c);
+    PARAMS("construct W=%u depth=%u " PFMT, W, D, PARG(p));
+    if (p.ctor == 0) { acct::Op op; g = new FG(p.sigma(), p.lam, p.m, p.c()); }
     else {
-      mpfr_t c; mpfr_init2(c, 256); mpfr_set_d(c, p.c, MPFR_RNDN);
-      g = new FG(p.sigma, p.lam, 1u << p.log2m, c);
+      mpfr_t c; mpfr_init2(c, 256); centre_mpfr(c, p);
+      { acct::Op op; g = new FG(p.sigma(), p.lam, p.m, c); }
       mpfr_clear(c);
     }
     wp = g->_word_precision; nb = g->_number_of_barriers;
-    for (unsigned i = 0; i < nb; i++) bidx[g->barriers[i]] = (int)i;
+    if (index_barriers) for (unsigned i = 0; i < nb; i++) bidx[g->barriers[i]] = (int)i;
   }
   ~Obj() {
-    PARAMS("destroy W=%u depth=%u sigma=%.17g lambda=%u m=2^%u centre=%.17g ctor=%d", W, D, p.sigma, p.lam, p.log2m, p.c, p.ctor);
-    delete g;
+    PARAMS("destroy W=%u depth=%u " PFMT, W, D, PARG(p));
+    { acct::Op op; delete g; }
+  }
+  void emit_par() {
+    printf("gpar %u %u %u %ld %ld %u %u %u => 1\n", W, p.lam, p.m, p.sn, p.sd, wp, nb, g->_bit_precision);
   }
 
   // hypotheses of the proved part, evaluated on the live barriers: sorted, last barrier starts with two all-ones words
@@ -118,7 +209,7 @@ template <class T, unsigned D> struct Obj {
     };
     int32_t* out = new int32_t[1];
     out[0] = SENTINEL;
-    g->getNoise(out, 1);
+    { acct::Op op; g->getNoise(out, 1); }
     int32_t r = out[0];
     delete[] out;
     return r;
@@ -164,8 +255,8 @@ template <class T, unsigned D> struct Obj {
   // kinds: 0 random, 1 all-zero, 2 all-ones, 3 copies of barriers with the last word perturbed, 4 exact barrier copies,
   //        5 random with first words drawn from flagged cells, 6 barrier on a long prefix then random
   void run_gn(uint64_t rlen, int kind, Rng& rng) {
-    PARAMS("getNoise id=%d W=%u depth=%u sigma=%.17g lambda=%u m=2^%u centre=%.17g ctor=%d rlen=%llu stream-kind=%d seed=%llu",
-           id, W, D, p.sigma, p.lam, p.log2m, p.c, p.ctor, (unsigned long long)rlen, kind, (unsigned long long)env_u64("VERIF_SEED", 1));
+    PARAMS("getNoise id=%d W=%u depth=%u " PFMT " rlen=%llu stream-kind=%d seed=%llu",
+           id, W, D, PARG(p), (unsigned long long)rlen, kind, (unsigned long long)env_u64("VERIF_SEED", 1));
     g_reqs.clear();
     uint64_t s0 = rng.next();
     g_fill = [&, s0, kind](size_t req, uint8_t* dst, size_t n) {
@@ -193,7 +284,7 @@ template <class T, unsigned D> struct Obj {
     };
     int32_t* out = new int32_t[rlen];   // exact size: a write past rlen outputs is a heap overflow for ASan
     for (uint64_t i = 0; i < rlen; i++) out[i] = SENTINEL;
-    g->getNoise(out, rlen);
+    { acct::Op op; g->getNoise(out, rlen); }
     size_t nreq = g_reqs.size();
     size_t blen = nreq ? g_reqs[0].size() / sizeof(T) : 0;
     int lenok = nreq >= 1;
@@ -210,6 +301,27 @@ template <class T, unsigned D> struct Obj {
     printf("\n");
     delete[] out;
   }
+
+  // ---- getNoise inside a lifecycle (outputs are not reported: C11's gn lines do that; here the accesses are what matters) ----
+  void life_sample(uint64_t rlen, int kind, uint64_t seed) {
+    PARAMS("getNoise(lifecycle) W=%u depth=%u " PFMT " rlen=%llu stream-kind=%d", W, D, PARG(p), (unsigned long long)rlen, kind);
+    Rng r2(seed);
+    g_reqs.clear();
+    unsigned nb_ = nb, wp_ = wp; FG* g_ = g;
+    g_fill = [&r2, nb_, wp_, g_, kind](size_t, uint8_t* dst, size_t n) {
+      std::vector<T> w(n / sizeof(T) + 1, 0);
+      for (size_t i = 0; i < w.size(); i++) {
+        switch (kind) { case 1: break; case 2: w[i] = (T)~(T)0; break; case 0: case 5: w[i] = (T)r2.next(); break;
+          default: w[i] = g_->barriers[(i / wp_) % nb_][i % wp_]; }
+      }
+      if (n) memcpy(dst, w.data(), n);
+    };
+    int32_t* out = new int32_t[rlen];
+    { acct::Op op; g->getNoise(out, rlen); }
+    delete[] out;
+    g_fill = nullptr;
+    g_reqs.clear();
+  }
 };
 
 // ------------------------------------------------------------------------------------------------ ideal distribution
@@ -217,7 +329,7 @@ template <class T, unsigned D> struct Obj {
 // sum_{x >= x0} rho(x) <= rho(x0) (1 + sigma^2/(x0-c))   (terms decrease, integral comparison + Mills' ratio), both sides.
 static const mpfr_prec_t PREC = 1536;
 struct Ideal {
-  double sigma, c; long lo, hi;        // explicit range [lo, hi]
+  long lo, hi;                         // explicit range [lo, hi]
   std::vector<__mpfr_struct> rho;      // rho[x-lo]
   mpfr_t S, tail;                      // S = explicit sum, tail = upper bound of the mass outside [lo,hi] (unnormalised)
 };
@@ -225,17 +337,22 @@ static void rho_at(mpfr_t r, long x, const mpfr_t c, const mpfr_t inv2s2) {
   mpfr_set_si(r, x, MPFR_RNDN); mpfr_sub(r, r, c, MPFR_RNDN); mpfr_sqr(r, r, MPFR_RNDN); mpfr_mul(r, r, inv2s2, MPFR_RNDN);
   mpfr_neg(r, r, MPFR_RNDN); mpfr_exp(r, r, MPFR_RNDN);
 }
-static Ideal* ideal_for(double sigma, double c) {
-  static auto& cache = *new std::map<std::pair<double, double>, Ideal*>;   // never destroyed: stays reachable for LSan
-  auto key = std::make_pair(sigma, c);
+static Ideal* ideal_for(const P& p) {
+  static auto& cache = *new std::map<std::array<long, 5>, Ideal*>;   // never destroyed: stays reachable for LSan
+  std::array<long, 5> key = {p.sn, p.sd, p.cn, p.cd, p.ctor == 2};
   auto it = cache.find(key);
   if (it != cache.end()) return it->second;
-  Ideal* I = new Ideal; I->sigma = sigma; I->c = c;
+  if (cache.size() > 600) {            // bound the memory of long random searches
+    for (auto& kv : cache) { for (auto& r : kv.second->rho) mpfr_clear(&r); mpfr_clears(kv.second->S, kv.second->tail, nullptr); delete kv.second; }
+    cache.clear();
+  }
+  const double sigma = p.sigma(), c = p.c();
+  Ideal* I = new Ideal;
   // rho < 2^-1000 beyond R = sigma*sqrt(2*1000*ln 2) ~ 37.3 sigma
   long R = (long)ceil(sigma * 37.3) + 2;
   I->lo = (long)floor(c) - R; I->hi = (long)ceil(c) + R;
   mpfr_t cc, s2, t; mpfr_inits2(PREC, cc, s2, t, I->S, I->tail, nullptr);
-  mpfr_set_d(cc, c, MPFR_RNDN);
+  { mpfr_t c256; mpfr_init2(c256, 256); centre_mpfr(c256, p); mpfr_set(cc, c256, MPFR_RNDN); mpfr_clear(c256); }   // exact: 256 <= PREC
   mpfr_set_d(s2, sigma, MPFR_RNDN); mpfr_sqr(s2, s2, MPFR_RNDN); mpfr_mul_ui(s2, s2, 2, MPFR_RNDN); mpfr_ui_div(s2, 1, s2, MPFR_RNDN);
   I->rho.resize(I->hi - I->lo + 1);
   mpfr_set_ui(I->S, 0, MPFR_RNDN);
@@ -260,7 +377,7 @@ static Ideal* ideal_for(double sigma, double c) {
 
 // TV between the sampler's exact output law (barrier differences over W^wp) and D_{Z,sigma,c}; returns ceil(1e6 * TV_upper / (2^-lam/m))
 template <class T, unsigned D> static long long tv_ratio_ppm(Obj<T, D>& o) {
-  Ideal* I = ideal_for(o.p.sigma, o.p.c);
+  Ideal* I = ideal_for(o.p);
   unsigned wp = o.wp, nb = o.nb;
   long v0 = (long)o.g->rounded_center - ((long)nb - 1) / 2;
   mpfr_t acc, pj, dj, t, scale;
@@ -287,7 +404,8 @@ template <class T, unsigned D> static long long tv_ratio_ppm(Obj<T, D>& o) {
   mpfr_div(t, I->tail, I->S, MPFR_RNDU); mpfr_mul_ui(t, t, 3, MPFR_RNDU); mpfr_add(acc, acc, t, MPFR_RNDU);  // tail mass + normalisation slack
   mpfr_div_2ui(acc, acc, 1, MPFR_RNDU);             // the 1/2
   // ratio to 2^-lam / m
-  mpfr_mul_2ui(acc, acc, o.p.lam + o.p.log2m, MPFR_RNDU);
+  mpfr_mul_2ui(acc, acc, o.p.lam, MPFR_RNDU);
+  mpfr_mul_ui(acc, acc, o.p.m, MPFR_RNDU);
   mpfr_mul_ui(acc, acc, 1000000, MPFR_RNDU);
   mpfr_ceil(acc, acc);
   long long r = mpfr_cmp_d(acc, 9e18) > 0 ? (long long)9e18 : (long long)mpfr_get_d(acc, MPFR_RNDU);
@@ -300,6 +418,7 @@ template <class T, unsigned D> static long long tv_ratio_ppm(Obj<T, D>& o) {
 template <class T, unsigned D> static void c10_config(const P& p, Rng& rng, unsigned max_bisect, bool emit_probes, unsigned cell_budget) {
   Obj<T, D> o(p);
   o.emit_tab();
+  o.emit_par();
   unsigned wp = o.wp, nb = o.nb, W = o.W;
   const T ones = (T)~(T)0;
   // (1) the implementation's step function, recovered by bisection
@@ -367,7 +486,8 @@ template <class T, unsigned D> static void c11_config(const P& p, Rng& rng, cons
 template <class T, unsigned D> static void tv_one(const P& p) {
   Obj<T, D> o(p);
   long long r = tv_ratio_ppm(o);
-  printf("gtv %u %u %u %ld %ld %d => %lld %u %u %d\n", o.W, p.lam, p.log2m, milli(p.sigma), milli(p.c), p.ctor, r, o.wp, o.nb, o.hyp_ok());
+  printf("gtv %u %u %u %ld %ld %ld %ld %d => %lld %u %u %d %u\n", o.W, p.lam, p.m, p.sn, p.sd, p.cn, p.cd, p.ctor, r, o.wp, o.nb, o.hyp_ok(), o.g->_bit_precision);
+  o.emit_par();
 }
 
 template <class T, unsigned D> static void life_one(const P& p, Rng& rng) {
@@ -376,30 +496,221 @@ template <class T, unsigned D> static void life_one(const P& p, Rng& rng) {
   for (int i = 0; i < 2; i++) {
     uint64_t rlen = lens[rng.below(6)];
     int kind = (int)rng.below(7);
-    PARAMS("getNoise(lifecycle) W=%u depth=%u sigma=%.17g lambda=%u m=2^%u centre=%.17g ctor=%d rlen=%llu stream-kind=%d", o->W, D, p.sigma, p.lam, p.log2m, p.c, p.ctor, (unsigned long long)rlen, kind);
-    Rng r2(rng.next());
-    g_reqs.clear();
-    unsigned nb = o->nb, wp = o->wp; auto* g = o->g;
-    g_fill = [&](size_t, uint8_t* dst, size_t n) {
-      std::vector<T> w(n / sizeof(T) + 1, 0);
-      for (size_t i = 0; i < w.size(); i++) {
-        switch (kind) { case 1: break; case 2: w[i] = (T)~(T)0; break; case 0: case 5: w[i] = (T)r2.next(); break;
-          default: w[i] = g->barriers[(i / wp) % nb][i % wp]; }
-      }
-      if (n) memcpy(dst, w.data(), n);
-    };
-    int32_t* out = new int32_t[rlen];
-    g->getNoise(out, rlen);
-    delete[] out;
+    o->life_sample(rlen, kind, rng.next());
   }
-  printf("glife %u %u %u %u %ld %ld %d => %u %u %d\n", o->W, D, p.lam, p.log2m, milli(p.sigma), milli(p.c), p.ctor, o->nb, o->wp, o->hyp_ok());
+  printf("glife %u %u %u %u %ld %ld %ld %ld %d => %u %u %d %u\n", o->W, D, p.lam, p.m, p.sn, p.sd, p.cn, p.cd, p.ctor, o->nb, o->wp, o->hyp_ok(), o->g->_bit_precision);
+  o->emit_par();
   delete o;
 }
 
-static const double SIGMAS[] = {0.3, 1, 3.19, 10, 100, 300};
+// ------------------------------------------------------------------------------------------------ parameter space
+// The grid of the property's statement (round values) …
+static const long SIGMAS[][2] = {{3, 10}, {1, 1}, {319, 100}, {10, 1}, {100, 1}, {300, 1}};
 static const unsigned LAMS[] = {32, 64, 128, 256};
-static const unsigned LOG2MS[] = {0, 10, 20};
-static const double CENTRES[] = {0, 0.5, -0.25, 1000.5};
+static const unsigned M_POW2[] = {1, 1u << 10, 1u << 20};
+static const long CENTRES[][2] = {{0, 1}, {1, 2}, {-1, 4}, {2001, 2}};
+// … and the same space off the round values: sample budgets that are not powers of two (neighbours of powers of two, powers of ten, odd
+// multiples of powers of two, odd numbers), sigmas / lambdas / centres that are not "nice" (lambda not a multiple of 8, centres with a
+// denominator that is not a power of two, i.e. rounded both by the double and by the 256-bit mpfr constructor)
+static const unsigned M_NP[] = {3, 1000, 1023, 1025, 10000, 12345, 65535, 65537, 100000, 1000000, (1u << 20) - 1, (1u << 19) + 1,
+                                999999, 3u << 18, 777, 524287, 5, 1000001, 7u << 16, 33};
+static const size_t N_M_NP = sizeof M_NP / sizeof M_NP[0];
+static const long SIGMAS_OFF[][2] = {{37, 100}, {17, 10}, {451, 100}, {1337, 100}, {777, 10}, {2 * 113, 1}};
+static const unsigned LAMS_OFF[] = {33, 47, 100, 129, 255};
+static const long CENTRES_OFF[][2] = {{1, 3}, {-2, 7}, {1000001, 1000}, {-12345678, 1000}, {499999, 1000000}};
+
+static unsigned pick_m(Rng& rng) {
+  unsigned m;
+  switch (rng.below(7)) {
+    case 0: m = 1u << rng.below(21); break;                                             // power of two
+    case 1: { unsigned j = 2 + (unsigned)rng.below(19); m = (1u << j) + (rng.below(2) ? 1 : -1); break; }   // neighbour of a power of two
+    case 2: { m = 1; for (unsigned k = rng.below(7); k; k--) m *= 10; break; }         // power of ten
+    case 3: m = 1 + (unsigned)rng.below(1u << 20); break;                              // anything
+    case 4: m = (unsigned)(2 * rng.below(8) + 3) << rng.below(17); break;              // odd multiple of a power of two
+    case 5: m = M_NP[rng.below(N_M_NP)]; break;
+    default: m = 1 + (unsigned)rng.below(40); break;                                   // small
+  }
+  if (m > (1u << 20)) m = (1u << 20) - (unsigned)rng.below(1000);
+  return m ? m : 1;
+}
+static P rand_params(Rng& rng, double smax) {
+  P p;
+  double s = 0.3 * exp((double)rng.below(1000001) / 1e6 * log(smax / 0.3));           // log-uniform in [0.3, smax]
+  switch (rng.below(3)) { case 0: p.sn = lround(s * 1e6); p.sd = 1000000; break; case 1: p.sn = std::max(3L, lround(s * 10)); p.sd = 10; break;
+    default: p.sn = std::max(1L, lround(s * 3)); p.sd = 3; }
+  if (p.sn * 10 < p.sd * 3) p.sn = (p.sd * 3 + 9) / 10;
+  p.lam = 32 + (unsigned)rng.below(225);
+  p.m = pick_m(rng);
+  switch (rng.below(7)) {
+    case 0: p.cn = 2 * ((long)rng.below(2001) - 1000) + 1; p.cd = 2; break;              // half-integers
+    case 1: p.cn = (long)rng.below(2000001) - 1000000; p.cd = 1000; break;               // thousandths
+    case 2: p.cn = (long)rng.below(1001) - 500; p.cd = 1000; break;                      // near 0
+    case 3: p.cn = (long)rng.below(200001) - 100000; p.cd = 1; break;                    // integers, large offsets
+    case 4: { static const long dens[] = {3, 7, 11, 13, 1000003}; p.cd = dens[rng.below(5)]; p.cn = (long)rng.below(4000 * p.cd + 1) - 2000 * p.cd; break; }
+    case 5: p.cn = (long)rng.below(8001) - 4000; p.cd = 4; break;                        // quarters
+    default: p.cd = 1L << (10 + rng.below(40)); p.cn = (long)(rng.next() % (uint64_t)(64 * p.cd)) - 32 * p.cd; break;   // dyadic with many fraction bits
+  }
+  p.ctor = rng.below(8) == 0 ? 2 : (int)rng.below(2);
+  fix_ctor(p);
+  return p;
+}
+
+// ------------------------------------------------------------------------------------------------ lifecycles over threads
+struct Life {
+  unsigned W = 0, depth = 0, nb = 0, wp = 0;
+  int hyp = 0;
+  virtual ~Life() {}
+  virtual void sample(uint64_t rlen, int kind, uint64_t seed) = 0;
+};
+template <class T, unsigned D> struct LifeT : Life {
+  Obj<T, D> o;
+  explicit LifeT(const P& p) : o(p, false) { W = o.W; depth = D; nb = o.nb; wp = o.wp; hyp = o.hyp_ok(); }
+  void sample(uint64_t rlen, int kind, uint64_t seed) override { o.life_sample(rlen, kind, seed); }
+};
+struct Spec { unsigned W, depth; P p; };
+static Life* make_life(const Spec& s) {
+  if (s.W == 256) return s.depth == 1 ? (Life*)new LifeT<uint8_t, 1>(s.p) : (Life*)new LifeT<uint8_t, 2>(s.p);
+  return s.depth == 1 ? (Life*)new LifeT<uint16_t, 1>(s.p) : (Life*)new LifeT<uint16_t, 2>(s.p);
+}
+// a named worker thread: runs one job at a time, handed over and awaited by the main thread (the lifecycle is sequential: C11 is about
+// which thread allocates and which one releases, not about races — those are C17/C18)
+struct Worker {
+  std::mutex mu; std::condition_variable cv; std::function<void()> job; bool has = false, done = false, quit = false;
+  std::thread th;
+  Worker() : th([this] { loop(); }) {}
+  void loop() {
+    std::unique_lock<std::mutex> l(mu);
+    for (;;) {
+      cv.wait(l, [&] { return has || quit; });
+      if (has) { has = false; l.unlock(); job(); l.lock(); done = true; cv.notify_all(); }
+      else return;
+    }
+  }
+  void run(const std::function<void()>& j) { std::unique_lock<std::mutex> l(mu); job = j; has = true; done = false; cv.notify_all(); cv.wait(l, [&] { return done; }); }
+  void stop() { { std::lock_guard<std::mutex> l(mu); quit = true; } cv.notify_all(); th.join(); }
+};
+struct Ev { int op, obj, thr; uint64_t arg; };
+static std::string g_first_leak;
+
+static void run_lifecycle(const std::vector<Spec>& objs, const std::vector<Ev>& evs, uint64_t seed) {
+  std::string lhs = "glc " + std::to_string(objs.size()) + " " + std::to_string(evs.size());
+  char buf[256];
+  for (auto& s : objs) { snprintf(buf, sizeof buf, " %u %u %u %u %ld %ld %ld %ld %d", s.W, s.depth, s.p.lam, s.p.m, s.p.sn, s.p.sd, s.p.cn, s.p.cd, s.p.ctor); lhs += buf; }
+  for (auto& e : evs) { snprintf(buf, sizeof buf, " %d %d %d %llu", e.op, e.obj, e.thr, (unsigned long long)e.arg); lhs += buf; }
+  PARAMS("lifecycle begins: %s", lhs.c_str());
+  std::vector<Life*> live(objs.size(), nullptr);
+  std::unique_ptr<Worker> workers[4];
+  int hyp = 1;
+  acct::begin();
+  for (size_t i = 0; i < evs.size(); i++) {
+    const Ev e = evs[i];
+    if (e.op == 3) { if (e.thr >= 1 && e.thr <= 3 && workers[e.thr]) { workers[e.thr]->stop(); workers[e.thr].reset(); } continue; }
+    std::function<void()> act = [&live, &objs, &hyp, e, seed, i] {
+      switch (e.op) {
+        case 0: live[e.obj] = make_life(objs[e.obj]); hyp &= live[e.obj]->hyp; break;
+        case 1: live[e.obj]->sample(e.arg, (int)(e.arg % 7), seed + 31 * i); break;
+        default: delete live[e.obj]; live[e.obj] = nullptr;
+      }
+    };
+    if (e.thr == 0) act();
+    else if (e.thr == 9) { std::thread t(act); t.join(); }
+    else { if (!workers[e.thr]) workers[e.thr].reset(new Worker); workers[e.thr]->run(act); }
+  }
+  for (auto& w : workers) if (w) { w->stop(); w.reset(); }
+  long rb = 0, rby = 0;
+  acct::end(rb, rby);
+  for (Life* l : live) if (l) { fprintf(stderr, "harness error: lifecycle leaves a sampler alive\n"); exit(3); }
+  printf("%s => %ld %ld %d\n", lhs.c_str(), rb, rby, hyp);
+  if (rb && g_first_leak.empty()) g_first_leak = lhs;
+  PARAMS("lifecycle over (%ld blocks / %ld bytes obtained inside constructor / getNoise / destructor are still allocated): %s", rb, rby, lhs.c_str());
+}
+
+static const uint64_t LIFE_LENS[] = {0, 1, 2, 3, 7, 33, 100};
+static uint64_t life_len(Rng& rng) { return LIFE_LENS[rng.below(7)]; }
+static Spec rand_spec(Rng& rng, bool allow_big) {
+  Spec s;
+  s.p = rand_params(rng, allow_big ? 60.0 : 12.0);
+  switch (rng.below(allow_big ? 8 : 7)) { case 0: case 1: case 2: s.W = 256; s.depth = 1; break; case 3: case 4: s.W = 256; s.depth = 2; break;
+    case 5: case 6: s.W = 65536; s.depth = 1; break; default: s.W = 65536; s.depth = 2; }
+  if (s.W == 65536 && s.depth == 2 && s.p.sn > 4 * s.p.sd) { s.p.sn = 3 + (long)rng.below(30); s.p.sd = 10; }   // one 2 MB row per flagged first-level cell
+  return s;
+}
+static int rand_thr(Rng& rng) { static const int t[] = {0, 0, 9, 9, 1, 2, 3}; return t[rng.below(7)]; }
+
+// (A) one sampler, every assignment of constructor / getNoise / destructor to {main, fresh thread, worker 1, worker 2}; when the
+//     constructing thread is a worker it ends either before the destruction or after it
+static void lifecycles_single(Rng& rng, bool th) {
+  static const int T[] = {0, 9, 1, 2};
+  int k = 0;
+  for (int tc : T) for (int ts : T) for (int td : T) for (int early = 0; early < 2; early++) {
+    if (early && !(tc == 1 || tc == 2)) continue;
+    if (!th && early && ts != tc && k % 2) { k++; continue; }
+    Spec s;
+    static const Spec base[] = {
+      {256, 2, {319, 100, 128, 1000, 0, 1, 0}}, {256, 1, {17, 10, 47, 12345, 1, 3, 2}}, {65536, 1, {451, 100, 100, 1000000, -2, 7, 1}},
+      {256, 2, {10, 1, 255, (1u << 20) - 1, 2001, 2, 0}}, {65536, 2, {3, 10, 33, 3, 1, 2, 0}}, {256, 1, {1, 1, 64, 1u << 10, -1, 4, 1}}};
+    s = base[k++ % 6];
+    std::vector<Ev> evs;
+    evs.push_back({0, 0, tc, 0});
+    evs.push_back({1, 0, ts, life_len(rng)});
+    if (early) evs.push_back({3, 0, tc, 0});
+    evs.push_back({1, 0, ts == tc && early ? 0 : ts, life_len(rng)});
+    evs.push_back({2, 0, td == tc && early ? 0 : td, 0});
+    run_lifecycle({s}, evs, rng.next());
+  }
+}
+// (B) several samplers alive at once: all constructed (threads drawn per sampler), sampled in turn, destroyed in FIFO / LIFO / random
+//     order, destruction thread = construction thread, main, a fresh thread, or another worker; workers may end between the phases
+static void lifecycles_multi(Rng& rng, int count, bool allow_big) {
+  for (int it = 0; it < count; it++) {
+    size_t n = 2 + rng.below(3);
+    std::vector<Spec> objs; std::vector<int> tc;
+    for (size_t i = 0; i < n; i++) { objs.push_back(i && rng.below(3) == 0 ? objs[rng.below(i)] : rand_spec(rng, allow_big && i == 0)); tc.push_back(rand_thr(rng)); }   // 1 in 3: same type and parameters as an earlier sampler
+    std::vector<Ev> evs;
+    for (size_t i = 0; i < n; i++) evs.push_back({0, (int)i, tc[i], 0});
+    if (rng.below(2)) evs.push_back({3, 0, 1 + (int)rng.below(3), 0});
+    for (size_t r = 0; r < 1 + rng.below(2); r++) for (size_t i = 0; i < n; i++) if (rng.below(4)) evs.push_back({1, (int)i, rand_thr(rng), life_len(rng)});
+    if (rng.below(2)) evs.push_back({3, 0, 1 + (int)rng.below(3), 0});
+    std::vector<int> order;
+    for (size_t i = 0; i < n; i++) order.push_back((int)i);
+    switch (it % 3) { case 0: break; case 1: std::reverse(order.begin(), order.end()); break;
+      default: for (size_t i = n - 1; i > 0; i--) std::swap(order[i], order[rng.below(i + 1)]); }
+    for (int o : order) {
+      int td; switch (rng.below(4)) { case 0: td = tc[o] == 9 ? 0 : tc[o]; break; case 1: td = 0; break; case 2: td = 9; break; default: td = 1 + (int)rng.below(3); }
+      evs.push_back({2, o, td, 0});
+    }
+    run_lifecycle(objs, evs, rng.next());
+  }
+}
+// (C) random interleavings: per sampler construct, 0..3 getNoise, destroy, merged at random, every event on a random thread, workers
+//     ended at random points; a sampler slot may be reused (constructed again after its destruction)
+static void lifecycles_random(Rng& rng, int count, bool allow_big) {
+  for (int it = 0; it < count; it++) {
+    size_t n = 1 + rng.below(4);
+    std::vector<Spec> objs;
+    for (size_t i = 0; i < n; i++) objs.push_back(i && rng.below(3) == 0 ? objs[rng.below(i)] : rand_spec(rng, allow_big && i == 0));
+    std::vector<std::vector<Ev>> per(n);
+    for (size_t i = 0; i < n; i++) {
+      int rounds = 1 + (rng.below(4) == 0);
+      for (int r = 0; r < rounds; r++) {
+        per[i].push_back({0, (int)i, rand_thr(rng), 0});
+        for (size_t k = rng.below(4); k; k--) per[i].push_back({1, (int)i, rand_thr(rng), life_len(rng)});
+        per[i].push_back({2, (int)i, rand_thr(rng), 0});
+      }
+    }
+    std::vector<size_t> at(n, 0);
+    std::vector<Ev> evs;
+    for (;;) {
+      std::vector<size_t> open;
+      for (size_t i = 0; i < n; i++) if (at[i] < per[i].size()) open.push_back(i);
+      if (open.empty()) break;
+      size_t i = open[rng.below(open.size())];
+      evs.push_back(per[i][at[i]++]);
+      if (rng.below(6) == 0) evs.push_back({3, 0, 1 + (int)rng.below(3), 0});
+    }
+    run_lifecycle(objs, evs, rng.next());
+  }
+}
 
 int main(int argc, char** argv) {
   setvbuf(stdout, nullptr, _IOLBF, 0);
@@ -409,24 +720,40 @@ int main(int argc, char** argv) {
   bool th = thorough();
 
   if (!strcmp(mode, "tv")) {
-    // parameter grid of the property; quick = sub-grid + random draws, thorough = full grid + more random draws
-    for (double s : SIGMAS) for (unsigned l : LAMS) for (unsigned lm : LOG2MS) for (double c : CENTRES) {
-      bool inq = s < 100 || (s == 100 && lm != 10) || (l == 128 && lm != 10 && (c == 0 || c == 1000.5));   // quick: full grid up to sigma = 10, sub-grid above
-      if (!th && !inq) continue;
-      P p{s, l, lm, c, 0};
-      tv_one<uint8_t, 1>(p);
-      tv_one<uint16_t, 1>(p);
+    // (1) the grid of the property, each point with m = 1, 2^10, 2^20 and with two sample budgets that are not powers of two;
+    //     quick = sub-grid, thorough = everything
+    size_t gi = 0;
+    for (auto& s : SIGMAS) for (unsigned l : LAMS) for (auto& c : CENTRES) {
+      double sv = (double)s[0] / s[1];
+      bool cz = c[0] == 0 || c[0] == 2001;
+      for (int k = 0; k < 5; k++) {
+        unsigned m = k < 3 ? M_POW2[k] : M_NP[(2 * gi + (k - 3) + seed) % N_M_NP];
+        bool inq = k < 3 ? (sv < 100 || (sv == 100 && k != 1) || (l == 128 && k != 1 && cz))
+                         : (sv <= 10 || (sv == 100 && k == 3 && (l == 128 || l == 32)) || (l == 128 && k == 3 && c[0] == 0));
+        if (!th && !inq) continue;
+        P p{s[0], s[1], l, m, c[0], c[1], 0};
+        tv_one<uint8_t, 1>(p);
+        tv_one<uint16_t, 1>(p);
+      }
+      gi++;
     }
-    int nr = th ? 400 : 40;
+    // (2) the same space off the round values: sigma, lambda, centre and m all "odd"; all three constructors
+    gi = 0;
+    for (auto& s : SIGMAS_OFF) for (unsigned l : LAMS_OFF) for (auto& c : CENTRES_OFF) {
+      gi++;
+      double sv = (double)s[0] / s[1];
+      if (!th && !(sv < 20 ? (gi + seed) % 3 == 0 : (gi + seed) % 25 == 0)) continue;
+      unsigned m = (gi % 4 == 0) ? M_POW2[(gi / 4) % 3] : M_NP[(gi + 3 * seed) % N_M_NP];
+      // constructor 2 (a centre that is not a double) on every 5th point only: see known_findings.json (the mpfr constructor rounds the centre to 53 bits)
+      P p{s[0], s[1], l, m, c[0], c[1], gi % 5 == 0 ? 2 : (int)(gi % 2)};
+      fix_ctor(p);
+      if (gi % 2) tv_one<uint8_t, 1>(p); else tv_one<uint16_t, 1>(p);
+    }
+    // (3) random draws: sigma log-uniform in [0.3,300] (capped in quick), lambda in [32,256], m in [1,2^20] (powers of two, their
+    //     neighbours, powers of ten, odd multiples, arbitrary), centre any rational, constructor double / mpfr(double) / mpfr(256 bit)
+    int nr = th ? 600 : 60;
     for (int i = 0; i < nr; i++) {
-      // sigma log-uniform in [0.3,300] (capped in quick), lambda in [32,256], m = 2^[0,20], centre any real
-      double smax = th ? 300.0 : 40.0;
-      double s = 0.3 * exp((double)rng.below(1000001) / 1e6 * log(smax / 0.3));
-      unsigned l = 32 + (unsigned)rng.below(225), lm = (unsigned)rng.below(21);
-      double c; switch (rng.below(4)) { case 0: c = (double)(long)rng.below(2001) - 1000 + 0.5; break;
-        case 1: c = ((double)rng.below(2000001) - 1e6) / 1e3; break; case 2: c = ((double)rng.below(1001)) / 1000.0 - 0.5; break;
-        default: c = (double)(long)rng.below(200001) - 100000; }
-      P p{s, l, lm, c, (int)rng.below(2)};
+      P p = rand_params(rng, th ? 300.0 : 40.0);
       if (rng.below(2)) tv_one<uint8_t, 1>(p); else tv_one<uint16_t, 1>(p);
     }
     return 0;
@@ -435,21 +762,21 @@ int main(int argc, char** argv) {
   if (!strcmp(mode, "c10")) {
     unsigned mb = th ? 400 : 48;
     // 8-bit index: all first-level cells, all second-level cells of flagged rows
-    c10_config<uint8_t, 1>(P{3.19, 128, 0, 0, 0}, rng, mb, true, 256);
-    c10_config<uint8_t, 2>(P{3.19, 128, 0, 0, 0}, rng, mb, true, 256);
-    c10_config<uint8_t, 2>(P{0.3, 32, 0, 0.5, 0}, rng, mb, true, 256);
-    c10_config<uint8_t, 1>(P{10, 64, 10, -0.25, 0}, rng, th ? mb : 24, false, 256);
-    c10_config<uint8_t, 2>(P{1, 256, 20, 1000.5, 1}, rng, th ? mb : 16, false, 256);
-    c10_config<uint8_t, 2>(P{100, 128, 0, 0, 0}, rng, th ? 64 : 8, false, 256);
+    c10_config<uint8_t, 1>(P{319, 100, 128, 1, 0, 1, 0}, rng, mb, true, 256);
+    c10_config<uint8_t, 2>(P{319, 100, 128, 1000, 0, 1, 0}, rng, mb, true, 256);
+    c10_config<uint8_t, 2>(P{3, 10, 32, 1, 1, 2, 0}, rng, mb, true, 256);
+    c10_config<uint8_t, 1>(P{10, 1, 64, 1u << 10, -1, 4, 0}, rng, th ? mb : 24, false, 256);
+    c10_config<uint8_t, 2>(P{1, 1, 256, 1u << 20, 2001, 2, 1}, rng, th ? mb : 16, false, 256);
+    c10_config<uint8_t, 2>(P{100, 1, 128, 1, 0, 1, 0}, rng, th ? 64 : 8, false, 256);
     // 16-bit index
-    c10_config<uint16_t, 1>(P{3.19, 128, 0, 0, 0}, rng, th ? mb : 16, false, th ? 65536 : 1500);
-    c10_config<uint16_t, 2>(P{0.3, 32, 0, 0.5, 0}, rng, mb, false, th ? 65536 : 1500);
-    c10_config<uint16_t, 2>(P{3.19, 128, 0, 0, 0}, rng, th ? mb : 8, false, th ? 8192 : 1000);
-    // seed-dependent configurations
+    c10_config<uint16_t, 1>(P{319, 100, 128, 1, 0, 1, 0}, rng, th ? mb : 16, false, th ? 65536 : 1500);
+    c10_config<uint16_t, 2>(P{3, 10, 32, 12345, 1, 3, 2}, rng, mb, false, th ? 65536 : 1500);
+    c10_config<uint16_t, 2>(P{319, 100, 128, 1, 0, 1, 0}, rng, th ? mb : 8, false, th ? 8192 : 1000);
+    // seed-dependent configurations (any sigma, lambda, m, centre, constructor)
     int nr = th ? 12 : 2;
     for (int i = 0; i < nr; i++) {
-      double s = 0.3 * exp((double)rng.below(1000001) / 1e6 * log(20.0 / 0.3));
-      P p{s, 32 + (unsigned)rng.below(225), (unsigned)rng.below(21), ((double)rng.below(4001) - 2000) / 4.0, (int)rng.below(2)};
+      P p = rand_params(rng, 20.0);
+      double s = p.sigma();
       switch (rng.below(th ? 4 : 3)) {
         case 0: c10_config<uint8_t, 1>(p, rng, 12, false, 256); break;
         case 1: c10_config<uint8_t, 2>(p, rng, 12, false, 256); break;
@@ -458,10 +785,10 @@ int main(int argc, char** argv) {
       }
     }
     if (th) {
-      c10_config<uint8_t, 1>(P{300, 256, 20, 1000.5, 0}, rng, 32, false, 256);
-      c10_config<uint8_t, 2>(P{300, 256, 20, 1000.5, 0}, rng, 32, false, 256);
-      c10_config<uint16_t, 1>(P{100, 64, 10, 0.5, 1}, rng, 32, false, 4000);
-      c10_config<uint16_t, 2>(P{10, 64, 0, -0.25, 0}, rng, 32, false, 2000);
+      c10_config<uint8_t, 1>(P{300, 1, 256, 1u << 20, 2001, 2, 0}, rng, 32, false, 256);
+      c10_config<uint8_t, 2>(P{300, 1, 255, 1000000, 1000001, 1000, 2}, rng, 32, false, 256);
+      c10_config<uint16_t, 1>(P{100, 1, 64, 1u << 10, 1, 2, 1}, rng, 32, false, 4000);
+      c10_config<uint16_t, 2>(P{10, 1, 64, 1, -1, 4, 0}, rng, 32, false, 2000);
     }
     return 0;
   }
@@ -473,34 +800,45 @@ int main(int argc, char** argv) {
     std::vector<uint64_t> big = {4096};
     if (th) for (uint64_t r = 0; r <= 4096; r++) { all.push_back(r); if (r % 4 == 1 || r <= 64) all4.push_back(r); if (r % 8 == 3 || r <= 64) all8.push_back(r); }
     // request lengths 0…64 on every stream kind, for both widths and depths
-    c11_config<uint8_t, 1>(P{3.19, 128, 0, 0, 0}, rng, small, 7);
-    c11_config<uint8_t, 2>(P{3.19, 128, 0, 0, 0}, rng, small, 7);
-    c11_config<uint16_t, 1>(P{3.19, 128, 0, 0, 0}, rng, small, 7);
-    c11_config<uint16_t, 2>(P{0.3, 32, 0, 0.5, 0}, rng, small, 7);
-    c11_config<uint8_t, 2>(P{3.19, 128, 0, 0, 0}, rng, big, 7);
-    c11_config<uint8_t, 1>(P{3.19, 128, 0, 0, 0}, rng, big, 3);
-    c11_config<uint16_t, 2>(P{3.19, 128, 0, 0, 0}, rng, big, 3);
-    c11_config<uint8_t, 2>(P{0.3, 256, 20, 0.5, 1}, rng, few, 2);      // longest comparisons relative to the table (lambda 256)
-    c11_config<uint8_t, 1>(P{10, 256, 0, 1000.5, 0}, rng, few, 2);
-    c11_config<uint8_t, 2>(P{100, 64, 10, -0.25, 0}, rng, few, 1);
-    c11_config<uint16_t, 1>(P{10, 32, 0, 0, 1}, rng, few, 1);
+    c11_config<uint8_t, 1>(P{319, 100, 128, 1, 0, 1, 0}, rng, small, 7);
+    c11_config<uint8_t, 2>(P{319, 100, 128, 1, 0, 1, 0}, rng, small, 7);
+    c11_config<uint16_t, 1>(P{319, 100, 128, 1, 0, 1, 0}, rng, small, 7);
+    c11_config<uint16_t, 2>(P{3, 10, 32, 1, 1, 2, 0}, rng, small, 7);
+    c11_config<uint8_t, 2>(P{319, 100, 128, 1, 0, 1, 0}, rng, big, 7);
+    c11_config<uint8_t, 1>(P{319, 100, 128, 1000, 1, 3, 2}, rng, big, 3);
+    c11_config<uint16_t, 2>(P{319, 100, 128, 1, 0, 1, 0}, rng, big, 3);
+    c11_config<uint8_t, 2>(P{3, 10, 256, 1u << 20, 1, 2, 1}, rng, few, 2);      // longest comparisons relative to the table (lambda 256)
+    c11_config<uint8_t, 1>(P{10, 1, 255, 1000000, 2001, 2, 0}, rng, few, 2);
+    c11_config<uint8_t, 2>(P{100, 1, 64, 1u << 10, -1, 4, 0}, rng, few, 1);
+    c11_config<uint16_t, 1>(P{10, 1, 33, 3, -2, 7, 1}, rng, few, 1);
     if (th) {
-      c11_config<uint8_t, 2>(P{3.19, 128, 0, 0, 0}, rng, all, 1);
-      c11_config<uint8_t, 1>(P{1, 64, 10, 0.5, 0}, rng, all4, 1);
-      c11_config<uint16_t, 1>(P{3.19, 128, 0, 0, 0}, rng, all4, 1);
-      c11_config<uint16_t, 2>(P{1, 32, 0, 0, 0}, rng, all8, 1);
-      c11_config<uint8_t, 2>(P{300, 256, 20, 1000.5, 0}, rng, few, 2);
+      c11_config<uint8_t, 2>(P{319, 100, 128, 1, 0, 1, 0}, rng, all, 1);
+      c11_config<uint8_t, 1>(P{1, 1, 64, 1u << 10, 1, 2, 0}, rng, all4, 1);
+      c11_config<uint16_t, 1>(P{319, 100, 128, 1, 0, 1, 0}, rng, all4, 1);
+      c11_config<uint16_t, 2>(P{1, 1, 32, 1, 0, 1, 0}, rng, all8, 1);
+      c11_config<uint8_t, 2>(P{300, 1, 256, 1u << 20, 2001, 2, 0}, rng, few, 2);
     }
-    // construction / sampling / destruction over the parameter grid (leaks are reported by LSan at exit)
-    for (double s : SIGMAS) for (unsigned l : LAMS) for (unsigned lm : LOG2MS) for (double c : CENTRES) {
-      bool inq = (lm == 0 || lm == 20) && c != -0.25 && !(s == 300 && l != 256);
+    // construction / sampling / destruction on one thread over the parameter grid; m = 1, 2^20 and a sample budget that is not a power
+    // of two (leaks are reported by LSan at exit)
+    size_t gi = 0;
+    for (auto& s : SIGMAS) for (unsigned l : LAMS) for (int k = 0; k < 4; k++) for (auto& c : CENTRES) {
+      double sv = (double)s[0] / s[1];
+      gi++;
+      unsigned m = k == 0 ? 1 : k == 1 ? 1u << 10 : k == 2 ? 1u << 20 : M_NP[(gi + seed) % N_M_NP];
+      bool inq = (k == 0 || k == 2 || (k == 3 && gi % 2 == 0)) && c[0] != -1 && !(sv == 300 && l != 256);
       if (!th && !inq) continue;
-      P p{s, l, lm, c, (int)rng.below(2)};
+      P p{s[0], s[1], l, m, c[0], c[1], (int)rng.below(2)};
+      if (k == 3) { p.lam += (unsigned)rng.below(8); p.ctor = (int)rng.below(3); if (rng.below(2)) { p.cn = 3 * p.cn + 1; p.cd = 3 * p.cd; } if (p.lam > 256) p.lam = 255; fix_ctor(p); }
       life_one<uint8_t, 1>(p, rng);
       life_one<uint8_t, 2>(p, rng);
       life_one<uint16_t, 1>(p, rng);
-      if (s <= (th ? 10 : 1)) life_one<uint16_t, 2>(p, rng);   // one 2 MB row per flagged first-level cell
+      if (sv <= (th ? 10 : 1)) life_one<uint16_t, 2>(p, rng);   // one 2 MB row per flagged first-level cell
     }
+    // lifecycles over threads, several samplers at once, any destruction order (allocator accounting per lifecycle)
+    lifecycles_single(rng, th);
+    lifecycles_multi(rng, th ? 300 : 30, th);
+    lifecycles_random(rng, th ? 500 : 40, th);
+    if (!g_first_leak.empty()) PARAMS("first lifecycle that left sampler memory allocated: %s", g_first_leak.c_str());
     return 0;
   }
   fprintf(stderr, "unknown mode %s\n", mode);
